@@ -354,3 +354,25 @@ def symbolic_block(stmts, env=None):
         else:
             return env, stmts[i:]
     return env, []
+
+
+def expand_atom(fn, atom: str, _cache={}) -> str:
+    """Guard-fact text with single-definition locals that merely name an attribute / item (`t = m.msg_type`) replaced
+    by that expression, so that a fact reads the same whether or not the value was first put into a local."""
+    import ast as _ast
+    import re as _re
+    from .core import unparse as _unparse
+    key = id(fn)
+    if key not in _cache:
+        m = {}
+        for k, v in single_defs(fn).items():
+            e = v
+            while isinstance(e, (_ast.Attribute, _ast.Subscript)):
+                e = e.value
+            if isinstance(v, (_ast.Attribute, _ast.Subscript)) and isinstance(e, _ast.Name):
+                m[k] = _unparse(v)
+        _cache[key] = m
+    m = _cache[key]
+    if not m:
+        return atom
+    return _re.sub(r"(?<![\w.])(" + "|".join(map(_re.escape, sorted(m, key=len, reverse=True))) + r")(?![\w(])", lambda mo: m[mo.group(1)], atom)
